@@ -121,8 +121,10 @@ class GetInstance(Contract):
                 k != c, z3.And(z3.Select(Pd, k) == z3.Select(Pd0, k), z3.Select(Pm, k) == z3.Select(Pm0, k))))))),
             ("percall: fresh instance, nothing stored", z3.Implies(percall, z3.And(made == 1, r == created, Sd == Sd0, Sm == Sm0, Pd == Pd0, Pm == Pm0))),
             ("result-is-an-instance", z3.Implies(made == 1, instance_of(r, c))),
-            ("creator called exactly once per created instance (when there is a creator)", z3.Implies(z3.And(self.creator.e != U_NONE, truthy(self.creator.e)), ccalls == made)),
-            ("creator not called when there is none", z3.Implies(z3.Not(z3.And(self.creator.e != U_NONE, truthy(self.creator.e))), ccalls == 0)),
+            # (from the property: "a custom instance creator is called exactly once per instance that is created" - WHATEVER the creator object looks like: a callable
+            #  factory object that happens to be falsy is still the creator.  An earlier version of this clause had copied the code's truthiness test.)
+            ("a custom instance creator (anything but None) is called exactly once per created instance", z3.Implies(self.creator.e != U_NONE, ccalls == made)),
+            ("without a creator (None) nothing but the class itself is called", z3.Implies(self.creator.e == U_NONE, ccalls == 0)),
         ]
 
     def x_failed(self, E, old, st, a, exc):
